@@ -1,6 +1,7 @@
 import Replicon.Proofs.Client
 import Replicon.Proofs.Fresh
 import Replicon.Proofs.Session
+import Replicon.Proofs.Jump
 /-
 C09 — Disconnects, reconnects and server restarts start from a clean slate.
 
@@ -107,5 +108,45 @@ example :
     ((Joint.runLog { srv := s0 } (fun _ => []) (ops ++ [.frame true 10 (fun _ => [])])).2 0).length = 1 ∧
     ((Joint.replay ((Joint.runLog { srv := s0 } (fun _ => []) (ops ++ [.frame true 10 (fun _ => [])])).2 0)).s2c.map (·.1)) = [6] := by
   refine ⟨by decide, by decide, by decide, by decide, by decide⟩
+
+/-- `C09_history_session_clean` for histories in which the tick also advances by more than one at
+once (`Joint.OpJ`, `Proofs/Jump.lean`) — in particular a session that reached a high tick, a server
+restart (the tick starts from 0 again) and a new session at low ticks. -/
+theorem C09_history_session_clean_with_tick_jumps (s0 : Server) (hw : s0.world = []) (hc0 : s0.clients = [])
+    (hb : s0.removalBuf = []) (ht : s0.lastRun < s0.now) (ops : List Joint.OpJ)
+    (hl : Joint.LegalJ { srv := s0 } ops) (ticked : Bool) (ms : Nat) (parts : Nat → List (List Nat))
+    (hr : (Joint.runLogJ { srv := s0 } (fun _ => []) ops).1.srv.running = true)
+    (hc : (preRun (Joint.runLogJ { srv := s0 } (fun _ => []) ops).1.srv ticked ms).tickChanged = true) :
+    ∀ x ∈ (Joint.step (Joint.runLogJ { srv := s0 } (fun _ => []) ops).1 (.frame ticked ms parts)).1.srv.clients,
+      x.2.authorized = true →
+      WF (Joint.replay (Joint.logStep (Joint.runLogJ { srv := s0 } (fun _ => []) ops).1
+            (Joint.runLogJ { srv := s0 } (fun _ => []) ops).2 (.frame ticked ms parts) x.1)) ∧
+      ∀ se, held (Joint.replay (Joint.logStep (Joint.runLogJ { srv := s0 } (fun _ => []) ops).1
+            (Joint.runLogJ { srv := s0 } (fun _ => []) ops).2 (.frame ticked ms parts) x.1)) se ↔
+        marked (Joint.step (Joint.runLogJ { srv := s0 } (fun _ => []) ops).1 (.frame ticked ms parts)).1.srv.world se ∧
+        Vis.isVisible (Joint.step (Joint.runLogJ { srv := s0 } (fun _ => []) ops).1 (.frame ticked ms parts)).1.srv.white
+          (cell x.2 se) = true :=
+  fun x hx ha => (Joint.session_with_jumps s0 hw hc0 hb ht ops hl ticked ms parts hr hc x hx ha).1
+
+/-- Non-vacuity: the first session reaches tick 202, the server is stopped and restarted (tick 0
+again), the client reconnects; the hypotheses hold, the update message of the new session carries
+tick 1 and the fresh receiver holds entities 5 and 6 (and only those). -/
+example :
+    let s0 : Server := { rates := [(0, .every)] }
+    let f (t : Bool) : Joint.OpJ := .op (.frame t 10 (fun _ => []))
+    let ops : List Joint.OpJ :=
+      [.op .start, .op (.connect 0 true), .op (.spawn 5 true [(0, 7)]), f true, .jump 200, .op (.spawn 6 true []),
+       f true, .op .stop, f false, .op .start, .op (.connect 0 true)]
+    Joint.LegalJ { srv := s0 } ops ∧
+    (Joint.runLogJ { srv := s0 } (fun _ => []) ops).1.srv.running = true ∧
+    (preRun (Joint.runLogJ { srv := s0 } (fun _ => []) ops).1.srv true 10).tickChanged = true ∧
+    s0.lastRun < s0.now ∧
+    (Joint.runLogJ { srv := s0 } (fun _ => []) [.op .start, .op (.connect 0 true), .op (.spawn 5 true [(0, 7)]), f true,
+      .jump 200, .op (.spawn 6 true []), f true]).1.srv.tick = 202 ∧
+    ((Joint.logStep (Joint.runLogJ { srv := s0 } (fun _ => []) ops).1 (Joint.runLogJ { srv := s0 } (fun _ => []) ops).2
+        (.frame true 10 (fun _ => [])) 0).map (·.tick)) = [1] ∧
+    ((Joint.replay (Joint.logStep (Joint.runLogJ { srv := s0 } (fun _ => []) ops).1
+        (Joint.runLogJ { srv := s0 } (fun _ => []) ops).2 (.frame true 10 (fun _ => [])) 0)).s2c.map (·.1)) = [5, 6] := by
+  refine ⟨by decide, by decide, by decide, by decide, by decide, by decide, by decide⟩
 
 end Replicon.C09
